@@ -21,13 +21,15 @@ LEVEL_TEXT = ("Theorems in Coq (Props/C20.v): (1) for every program of lock-prot
               "(sm2/sm3/sm4/x509 package operations, shared Sm4Cipher, first use of the curve, CertPool reads, Config once/ticket keys/LRU cache, "
               "Conn Read/Write/Close) satisfies that hypothesis for every program built from its rows, SetSessionTicketKeys at any time included "
               "(finite check lifted; first use of a Config against rotation also swept step by step: the rotated keys are always kept); (3) the activeCall protocol of Conn.Write/Close for any number of "
-              "calls and all schedules. Tie: `go build -race` of the scenario driver, 2..32 goroutines per row pair, fresh process per scenario.")
+              "calls and all schedules; (4) threads that take their locks in one rank order never reach a state with every unfinished thread blocked on a mutex, "
+              "the rows of the table are so ordered, and the lock acquisitions found in the current source go strictly upwards in the same rank. Tie: `go build -race` of the scenario driver, 2..32 goroutines per row pair, fresh process per scenario.")
 LEVEL_NOTE = ("PARTIAL BY NATURE. The theorems carry the logic of sharing only: the Go scheduler, the Go memory model, preemption inside an "
               "access and the correspondence between the access table and the code are not proved. The table (coq/Conc/AccessTable.v) is written by "
               "hand; its write sets are tied to the current source statically (Gen/ConcWriteSets.v, theorems table_covers_source_writes incl. the Conn rows and the handshake code, "
               "source_unattributed_bounded for calls through function values / outside interfaces; reads and renegotiation are outside that tie) and it is validated per run by the race detector on the interleavings that occur. Locks are modelled where "
-              "the code takes them (nested, RWMutex with shared readers); the serialisability conclusion is at region level (accesses between two "
-              "synchronisation operations); Conn.Handshake and handshakeComplete() are modelled as a sync.Once; renegotiation is outside. "
+              "the code takes them (nested, RWMutex with shared readers); the serialisability conclusion is at REGION level (accesses between two "
+              "synchronisation operations), not at call level (Example region_level_not_call_level), and concerns complete schedules; absence of deadlock is "
+              "proved for blocking on mutexes only (Once is an atomic step of the machine; the source lock order treats a Once as a lock; network, Cond, channels outside); Conn.Handshake and handshakeComplete() are modelled as a sync.Once; renegotiation is outside. "
               "sm4.IV (SetIV), x509.ContentEncryptionAlgorithm and CertPool construction are caller-synchronised: only concurrent reads are claimed. "
               "Static tie precision: field level, calls inside the analysed packages, known external mutators only (harness/cmd/gen/target_conc.go).")
 TRUSTED_BASE = [
